@@ -29,7 +29,19 @@ def viol(sig, detail):
     return {"property": "C19", "sig": sig, "kind": "rle", "detail": detail}
 
 
-INITS = (INIT, INIT.replace(tzinfo=datetime.timezone(datetime.timedelta(hours=9))), INIT.replace(tzinfo=datetime.timezone(datetime.timedelta(hours=-5, minutes=-30))))  # naive and timezone-aware starts
+def _zoned_starts():
+    try:
+        import zoneinfo
+
+        z = zoneinfo.ZoneInfo("Europe/Berlin")
+        # two days before the change to summer time 2026 and one day before the change back: day-sized steps cross the change
+        return (datetime.datetime(2026, 3, 27, 9, 0, 0, tzinfo=z), datetime.datetime(2026, 10, 24, 9, 0, 0, tzinfo=z))
+    except Exception:
+        return ()
+
+
+# naive starts, fixed-offset starts, and starts in a zone whose offset changes during the charted period
+INITS = (INIT, INIT.replace(tzinfo=datetime.timezone(datetime.timedelta(hours=9))), INIT.replace(tzinfo=datetime.timezone(datetime.timedelta(hours=-5, minutes=-30)))) + _zoned_starts()
 
 
 def rows(name, lst, state, typ, unit, init=INIT):
